@@ -120,15 +120,14 @@ def RStmt.instName : RStmt → List Name
   | .bb _ inst _ => [inst]
   | _ => []
 
-/-- the fast parser's documented subset: every net is an input or driven exactly once, every net read or declared as an
-    output is an input or driven (so the fast parser never invents an untyped node), unary gates have one operand,
+/-- the fast parser's documented subset: every net is an input or driven at most once, every net declared as an
+    output is an input or driven, nets that are only read (floating wires) are allowed, unary gates have one operand,
     blackbox instances use named ports of a known blackbox, names are acceptable and do not collide with either
     parser's constant nodes -/
 structure Restricted (r : RMod) (bbs : List BBox) : Prop where
   stmts : ∀ s ∈ r.stmts, s.OK bbs
   inputsPlain : ∀ i ∈ r.inputs, Plain i
   defsNodup : (r.inputs ++ r.stmts.flatMap (RStmt.defs bbs)).Nodup
-  closed : ∀ s ∈ r.stmts, ∀ n ∈ s.uses bbs, n ∈ r.inputs ∨ n ∈ r.stmts.flatMap (RStmt.defs bbs)
   outputsDriven : ∀ o ∈ r.outputs, o ∈ r.inputs ∨ o ∈ r.stmts.flatMap (RStmt.defs bbs)
   outputsNodup : r.outputs.Nodup
   instsNodup : (r.stmts.flatMap RStmt.instName).Nodup
@@ -293,13 +292,6 @@ theorem restricted {r : RMod} {bbs : List BBox} (h : Restricted r bbs) : FV.Rest
   defsNodup := by
     show (r.inputs ++ (r.stmts.map stmt).flatMap (FV.RStmt.defs bbs)).Nodup
     rw [flatMap_stmts _ _ (stmt_defs bbs)]; exact h.defsNodup
-  closed := by
-    intro s hs n hn
-    obtain ⟨s0, hs0, rfl⟩ := List.mem_map.1 hs
-    rw [stmt_uses] at hn
-    show n ∈ r.inputs ∨ n ∈ (r.stmts.map stmt).flatMap (FV.RStmt.defs bbs)
-    rw [flatMap_stmts _ _ (stmt_defs bbs)]
-    exact h.closed s0 hs0 n hn
   outputsDriven := by
     intro o ho
     show o ∈ r.inputs ∨ o ∈ (r.stmts.map stmt).flatMap (FV.RStmt.defs bbs)
@@ -375,7 +367,7 @@ example : Restricted ex [exBB] := by
   have hp : ∀ n ∈ ["g_1", "o", "w", "b", "u", "clk", "d", "q", "a"], Plain n := by
     unfold Plain; decide +kernel
   refine ⟨?_, fun i hi => hp i (by revert hi; simp only [ex]; decide +revert), by decide +kernel, by decide +kernel,
-    by decide +kernel, by decide +kernel, by decide +kernel⟩
+    by decide +kernel, by decide +kernel⟩
   intro s hs
   simp only [ex, List.mem_cons, List.not_mem_nil, or_false] at hs
   rcases hs with rfl | rfl | rfl
@@ -398,5 +390,46 @@ example : Restricted ex [exBB] := by
         exact ⟨fun n hn => by simp only [ROp.nets, List.mem_singleton] at hn; subst hn; exact hp _ (by decide),
           fun _ => ⟨"q", rfl⟩⟩
   · exact ⟨hp _ (by decide), fun n hn => by simp only [ROp.nets, List.mem_singleton] at hn; subst hn; exact hp _ (by decide)⟩
+
+/-! regression (K38): a floating wire `fl` — read by an `and` gate and by a blackbox input pin, never declared or driven —
+    is allowed by the subset; both readers create it as an undriven `buf` that is not an output -/
+def exF : RMod :=
+  { name := "top", inputs := ["a"], outputs := ["o", "q"],
+    stmts := [.gate "and" "g_1" "o" [.net "fl", .net "a"],
+              .bb "ff" "u" [("clk", none), ("d", some (.net "fl")), ("q", some (.net "q"))]] }
+example : ((FastVerilog.assemble exF.toFParsed [exBB] id id).toOption.map
+    (fun c => (view c "fl", c.fanin "fl", c.fanout "fl", c.nodes.length))) =
+    some (some (some "buf", false), [], ["o", "u.d"], 7) := by
+  decide +kernel
+example : ((Verilog.transform exF.toModule [exBB] id).toOption.map
+    (fun c => (view c "fl", c.fanin "fl", c.fanout "fl", c.nodes.length))) =
+    some (some (some "buf", false), [], ["o", "u.d"], 7) := by
+  decide +kernel
+example : Restricted exF [exBB] := by
+  have hp : ∀ n ∈ ["g_1", "o", "fl", "a", "u", "clk", "d", "q"], Plain n := by
+    unfold Plain; decide +kernel
+  refine ⟨?_, fun i hi => hp i (by revert hi; simp only [exF]; decide +revert), by decide +kernel, by decide +kernel,
+    by decide +kernel, by decide +kernel⟩
+  intro s hs
+  simp only [exF, List.mem_cons, List.not_mem_nil, or_false] at hs
+  rcases hs with rfl | rfl
+  · refine ⟨by decide, hp _ (by decide), hp _ (by decide), by simp, by decide, ?_⟩
+    intro n hn
+    simp only [ROp.nets, List.flatMap_cons, List.flatMap_nil, List.append_nil, List.cons_append, List.nil_append,
+      List.mem_cons, List.not_mem_nil, or_false] at hn
+    rcases hn with rfl | rfl <;> exact hp _ (by decide)
+  · refine ⟨by decide, hp _ (by decide), exBB, by decide +kernel, ?_, by decide, by decide, by decide, ?_⟩
+    · intro g hg
+      exact hp g (by revert hg; simp only [exBB]; decide +revert)
+    · intro p hpm o ho
+      simp only [List.mem_cons, List.not_mem_nil, or_false] at hpm
+      rcases hpm with rfl | rfl | rfl
+      · cases ho
+      · injection ho with ho; subst ho
+        exact ⟨fun n hn => by simp only [ROp.nets, List.mem_singleton] at hn; subst hn; exact hp _ (by decide),
+          fun hc => absurd hc (by decide)⟩
+      · injection ho with ho; subst ho
+        exact ⟨fun n hn => by simp only [ROp.nets, List.mem_singleton] at hn; subst hn; exact hp _ (by decide),
+          fun _ => ⟨"q", rfl⟩⟩
 
 end CG.C14
